@@ -46,8 +46,16 @@ func c09Doc(feature int, v string, n int) map[string]any {
 			"tags": []any{"t" + v}, "extra_hosts": []any{"b=1.1.1.1"}}
 	case 8: // env_file long form incl. format, label_file
 		s["env_file"] = []any{map[string]any{"path": "/e/a.env", "required": false}, map[string]any{"path": "/e/b.env", "required": false, "format": "raw"}}
-	case 9: // device requests and gpus
-		s["deploy"] = map[string]any{"resources": map[string]any{"reservations": map[string]any{"devices": []any{map[string]any{"capabilities": []any{"gpu"}, "count": n}}}}, "replicas": 2,
+	case 9: // device requests and gpus: numeric count, `all`, and no count (defaults to all)
+		dev := map[string]any{"capabilities": []any{"gpu"}, "count": n}
+		switch n {
+		case 3:
+			dev["count"] = "all"
+		case -1:
+			delete(dev, "count")
+		}
+		s["gpus"] = []any{map[string]any{"driver": "nv" + v, "count": "all"}}
+		s["deploy"] = map[string]any{"resources": map[string]any{"reservations": map[string]any{"devices": []any{dev}}}, "replicas": 2,
 			"restart_policy": map[string]any{"condition": "on-failure", "delay": "5s", "window": "1m"}}
 	case 10: // logging, sysctls, tmpfs, extensions
 		s["logging"] = map[string]any{"driver": "d", "options": map[string]any{"o": v}}
